@@ -86,6 +86,10 @@ def _callee_readonly(key: str) -> list[str]:
     return bad
 
 
+WRITE_FIX_GUARDS = ("lenient and schema_def is not None and validation_errors", "lenient and schema_definition is not None and validation_errors", "lenient")
+WRITE_REGION_GUARD = "schema_name"
+
+
 def probe_fix_off(tool_q: str) -> tuple[bool, str]:
     """concrete stand-in when the switch variable is not bound the way the contract expects: repairable and
     unrepairable invalid documents under every profile with the switch omitted and explicitly off must come back as
@@ -206,7 +210,7 @@ def obligations(ctx: Ctx):
         Ob(f"{P}.F1.reads", "F", "the validator's closure reads no source position", VAL, framesobs.ob_reads_no_position(VAL + ["octave_mcp.core.constraints:ConstraintChain.evaluate"])),
         Ob(f"{P}.F1.effects", "F", "the validator's verdict depends on no ambient state (clock only in the routing timestamp)", VAL, framesobs.ob_no_effects(VAL, ("global_write", "env", "random", "hash_order", "identity", "fs_write", "subprocess", "await"))),
         Ob(f"{P}.P2.validate", "F", "octave_validate with fix off: the emitted document is the parsed document, never mutated in between", ["octave_mcp.mcp.validate:ValidateTool.execute"], ob_fix_off_readonly("octave_mcp.mcp.validate", "ValidateTool.execute", ("fix",))),
-        Ob(f"{P}.P3.write", "F", "octave_write with lenient off: schema validation does not alter the document that is emitted", ["octave_mcp.mcp.write:WriteTool.execute"], ob_fix_off_readonly("octave_mcp.mcp.write", "WriteTool.execute", ("lenient and schema_def is not None and validation_errors", "lenient and schema_definition is not None and validation_errors", "lenient"), region_guard="schema_name")),
+        Ob(f"{P}.P3.write", "F", "octave_write with lenient off: schema validation does not alter the document that is emitted", ["octave_mcp.mcp.write:WriteTool.execute"], ob_fix_off_readonly("octave_mcp.mcp.write", "WriteTool.execute", WRITE_FIX_GUARDS, region_guard=WRITE_REGION_GUARD)),
     ]
     try:
         from props import C09_b
